@@ -5,6 +5,7 @@
      Occupancy with an Interval time step   = occ_itv (Interval of ints = zitv)     -> occ_of_itv
      SetBasedPrediction                     = its _occupancy_set, of one of the two kinds
      TrajectoryPrediction                   = its _trajectory and the value of the cached property occupancy_set
+                                              (traj_pred_src: what _create_occupancy_set reads, _trajectory and _shape)
      StaticObstacle / DynamicObstacle       = _initial_state, _initial_occupancy_shape (, _prediction : P)
    States and shapes are opaque (types S, R); state.time_step is [tstep]. *)
 From Coq Require Import ZArith List.
@@ -20,6 +21,8 @@ Section Cfg.
   Record set_pred_step := { sp_occs : list (Z * R) }.
   Record set_pred_itv := { si_occs : list occ_itv }.
   Record traj_pred := { tp_traj : traj S; tp_occs : list (Z * R) }.
+  (* TrajectoryPrediction as _create_occupancy_set reads it: _trajectory, _shape; _wheelbase_lengths is None *)
+  Record traj_pred_src := { ts_traj : traj S; ts_shape : R; ts_wheelbase : unit }.
   Record static_obs := { so_init : S; so_shape : R }.
   Record dyn_obs (P : Type) := { do_init : S; do_shape : R; do_pred : P }.
   Record env_obs := { eo_shape : R }.                      (* EnvironmentObstacle: _obstacle_shape *)
@@ -33,6 +36,7 @@ End Cfg.
 Arguments oi_time {R}. Arguments oi_region {R}. Arguments Build_occ_itv {R}.
 Arguments sp_occs {R}. Arguments si_occs {R}.
 Arguments tp_traj {S R}. Arguments tp_occs {S R}.
+Arguments ts_traj {S R}. Arguments ts_shape {S R}. Arguments ts_wheelbase {S R}.
 Arguments so_init {S R}. Arguments so_shape {S R}.
 Arguments eo_shape {R}. Arguments ph_pred {P}.
 Arguments do_init {S R P}. Arguments do_shape {S R P}. Arguments do_pred {S R P}.
